@@ -237,6 +237,29 @@ theorem basic_validates_iff (creds : List (String × String)) (md : MD) (u : Str
           have : c.1 = u := Lemmas.bytesOf_injective (Prod.mk.inj hc).1
           simp [this]
 
+/-- basic_valid_header_validates (completeness from the caller's side): the header
+    "Basic " ++ base64(user ++ ":" ++ password) built by a standard encoder from a configured pair
+    whose user name has no ':' validates as that user — whatever else the password contains. -/
+theorem basic_valid_header_validates (creds : List (String × String)) (md : MD) (u pw h : String)
+    (rest : List String) (hm : (u, pw) ∈ creds) (hc : (58 : UInt8) ∉ bytesOf u)
+    (ha : authValues md = some (h :: rest))
+    (hh : bytesOf h = basicPrefix ++ b64Encode (bytesOf u ++ 58 :: bytesOf pw)) :
+    basicValidate creds md = some u := by
+  refine (basic_validates_iff creds md u).mpr ⟨h, rest, ha, pw, hm, ?_⟩
+  have hp : parseBasic (bytesOf h) = some (bytesOf u, bytesOf pw) := by
+    refine (basic_parse_spec _ _ _).mpr ⟨?_, bytesOf u ++ 58 :: bytesOf pw, ?_, rfl, hc⟩
+    · rw [hh]; simp [List.isPrefixOf_iff_prefix]
+    · rw [hh, List.drop_left, Lemmas.b64Decode_encode]
+  unfold basicPair
+  rw [hp]
+  rfl
+
+/-- A user name containing ':' can never validate with a parsing header: the cut is at the FIRST colon. -/
+theorem basic_colon_user_never_parses (h : Bytes) (u p : Bytes) (hu : (58 : UInt8) ∈ u) :
+    parseBasic h ≠ some (u, p) := by
+  intro hp
+  exact ((basic_parse_spec h u p).mp hp).2.choose_spec.2.2 hu
+
 /-- Unless the empty pair ("", "") is itself a configured credential, only a well-formed header
     validates: prefix "Basic ", valid base64, user:password as configured. -/
 theorem basic_wellformed_iff (creds : List (String × String)) (md : MD) (u : String)
